@@ -46,6 +46,11 @@ impl LinkedHashMap {
     pub fn pop_front(&mut self) -> (r: Option<(Byte32, PoolValue)>)
         ensures old(self).entries.len() > 0 ==> final(self).entries == old(self).entries.subrange(1, old(self).entries.len() as int),
                 old(self).entries.len() == 0 ==> final(self).entries == old(self).entries { unimplemented!() }
+    // pop_back: removes the NEWEST entry
+    #[verifier::external_body]
+    pub fn pop_back(&mut self) -> (r: Option<(Byte32, PoolValue)>)
+        ensures old(self).entries.len() > 0 ==> final(self).entries == old(self).entries.subrange(0, old(self).entries.len() - 1),
+                old(self).entries.len() == 0 ==> final(self).entries == old(self).entries { unimplemented!() }
     #[verifier::external_body]
     pub fn get(&self, k: &Byte32) -> (r: Option<&PoolValue>)
         ensures r.is_some() == (lhm_index_of(self.entries, k@) >= 0),
